@@ -976,7 +976,7 @@ func (s *SecureChannel) scheduleExpiration(instance *channelInstance) {
 			// something has gone horribly wrong!
 			debug.Printf("uasc %d: secureChannelID mismatch during scheduleExpiration!", s.c.ID())
 		}
-		if oldInstance == instance {
+		if oldInstance == instance && instance != s.activeInstance {
 			continue
 		}
 		s.instances[instance.secureChannelID] = append(
